@@ -17,8 +17,8 @@ func init() {
 	Register(&Rule{
 		ID:    "R-SMALL",
 		Doc:   "single-site obligations: thrift Reset recomputes protocol flags like the constructor; the seen-bit of a decoded field is set on every path that consumes it; keyset lookups are confirmed by a length comparison; HTML key fragments are always computed; slice growth is geometric; every callback parameter of the skippers is used; trailing-data tests dominate success returns; varint overflow constants; sort-before-delta; number-kind precedence; identities of base64/time/endianness callees",
-		Props: []string{"C01", "C02", "C04", "C07", "C08", "C12", "C13", "C14"},
-		Min:   map[string]int{"C01": 2, "C02": 3, "C04": 4, "C07": 3, "C08": 3, "C12": 1, "C13": 1, "C14": 2},
+		Props: []string{"C01", "C02", "C03", "C04", "C07", "C08", "C12", "C13", "C14"},
+		Min:   map[string]int{"C01": 2, "C02": 3, "C03": 1, "C04": 4, "C07": 3, "C08": 3, "C12": 2, "C13": 1, "C14": 2},
 		Run:   runSmall,
 	})
 }
@@ -36,6 +36,7 @@ func runSmall(c *core.Ctx) []core.Obligation {
 	smallSortBeforeDelta(c, b)
 	smallNumberPrecedence(c, b)
 	smallIdentities(c, b)
+	smallImplicitNumber(c, b)
 	return b.out
 }
 
@@ -630,5 +631,75 @@ func smallIdentities(c *core.Ctx, b *ob) {
 		default:
 			b.addP(x.props, core.Violation, "identity:"+x.key, c.FuncPos(fn), fmt.Sprintf("%s no longer uses %s (%s)", x.fn, x.suffix, x.why))
 		}
+	}
+}
+
+// S12 — proto: the implicit number of an untagged field counts the exported fields that precede
+// it; it is not the reflect field index (which also counts unexported fields).
+func smallImplicitNumber(c *core.Ctx, b *ob) {
+	props := []string{"C12", "C03"}
+	key := "implicit-field-number"
+	fn := c.Lookup("proto.structCodecOf")
+	if fn == nil {
+		b.addP(props, core.Undecided, key, "-", "proto.structCodecOf not found")
+		return
+	}
+	// the index passed to reflect.Type.Field
+	var idx []ssa.Value
+	for _, ci := range callsIn(fn) {
+		cc := ci.Common()
+		if cc.IsInvoke() && cc.Method.Name() == "Field" && len(cc.Args) == 1 {
+			idx = append(idx, cc.Args[0])
+		}
+	}
+	arith := func(v ssa.Value, target ssa.Value) bool {
+		seen := map[ssa.Value]bool{}
+		var walk func(ssa.Value) bool
+		walk = func(v ssa.Value) bool {
+			if v == nil || seen[v] {
+				return false
+			}
+			seen[v] = true
+			if v == target {
+				return true
+			}
+			switch x := v.(type) {
+			case *ssa.Convert:
+				return walk(x.X)
+			case *ssa.ChangeType:
+				return walk(x.X)
+			case *ssa.BinOp:
+				return walk(x.X) || walk(x.Y)
+			}
+			return false
+		}
+		return walk(v)
+	}
+	n, bad := 0, ""
+	for _, blk := range fn.Blocks {
+		for _, in := range blk.Instrs {
+			st, ok := in.(*ssa.Store)
+			if !ok {
+				continue
+			}
+			fa, ok := st.Addr.(*ssa.FieldAddr)
+			if !ok || fieldNameOf(fa) != "number" || !strings.HasSuffix(namedKey(fa.X.Type().Underlying().(*types.Pointer).Elem()), "structField") {
+				continue
+			}
+			n++
+			for _, i := range idx {
+				if arith(st.Val, i) {
+					bad = c.InstrPos(st)
+				}
+			}
+		}
+	}
+	switch {
+	case n == 0 || len(idx) == 0:
+		b.addP(props, core.Undecided, key, c.FuncPos(fn), "no store to structField.number / no reflect Field(i) call found in structCodecOf")
+	case bad != "":
+		b.addP(props, core.Violation, key, bad, "the implicit field number is computed from the reflect field index, which also counts unexported fields: every exported field declared after an unexported one gets a different number than before (and than the reader of previously written data expects)")
+	default:
+		b.addP(props, core.Discharged, key, c.FuncPos(fn), "structField.number comes from the exported-field counter or the tag, never from the reflect index")
 	}
 }
